@@ -99,7 +99,9 @@ struct Th {
     /// sub-step inside a compound op (CvWait: 0 = before enqueue, 1 = waiting)
     sub: u8,
     park_token: bool,
-    token_src: Option<usize>,
+    /// every unpark absorbed into the stored token since it was last consumed: `park` synchronises
+    /// with all of them (std: the token is an RMW chain, a release sequence; loom: clock join)
+    token_src: Vec<usize>,
     /// hb sources to attach to the next event of this thread
     wake_src: Vec<usize>,
     /// condvar bookkeeping while in CvWait phase 2
@@ -852,7 +854,7 @@ impl<'p> Machine<'p> {
                         self.cv[c as usize].waiters.retain(|&x| x != tid);
                         // the stray unpark's token was consumed by the wake-up
                         self.th[t].park_token = false;
-                        self.th[t].token_src = None;
+                        self.th[t].token_src.clear();
                     }
                     self.th[t].cv_notified = None;
                     self.th[t].cv_spurious_ok = None;
@@ -1053,7 +1055,7 @@ impl<'p> Machine<'p> {
             Op::Park => {
                 let e = self.push_ev(t, pc, EK::Sync, NOLOC, MO::Rlx);
                 self.th[t].park_token = false;
-                if let Some(s) = self.th[t].token_src.take() {
+                for s in std::mem::take(&mut self.th[t].token_src) {
                     self.g.extra.push((s, e));
                 }
             }
@@ -1062,7 +1064,7 @@ impl<'p> Machine<'p> {
                 let c = c as usize;
                 if self.th[c].started && !self.th[c].done {
                     self.th[c].park_token = true;
-                    self.th[c].token_src = Some(e);
+                    self.th[c].token_src.push(e);
                     // [envelope] MAY: a thread waiting on a condvar may be woken by a stray unpark
                     // (std permits spurious condvar wake-ups)
                     if self.cfg.reading == Reading::May {
